@@ -107,7 +107,7 @@ def main():
             meta["checks"] = {}
             for p in [prop] + extra:
                 t0 = time.time()
-                e = dict(ENV, VERIF_REPO=wt, VERIF_MAX_VIOLATIONS="1", VERIF_SNAPSHOT_SIM="1")
+                e = dict(ENV, VERIF_REPO=wt, VERIF_MAX_VIOLATIONS="1", VERIF_SNAPSHOT_SIM=os.environ.get("VERIF_SNAPSHOT_SIM", "head"))
                 rcc, oc = sh(["./check", p, "quick"], cwd=VERIF, env=e)
                 lines = [l for l in oc.splitlines() if l.startswith("VIOLATION") or l.startswith("  class=") or l.startswith("OK ") or l.startswith("KNOWN") or "HARNESS" in l]
                 meta["checks"][p] = {"exit": rcc, "wall_s": round(time.time() - t0, 1), "output": [l[:400] for l in lines[:8]]}
